@@ -155,6 +155,7 @@ contract('IOManager.read',
          ghost_exit=[('G.di', 'store(G.di, %s, G.di[%s] + 1)' % (LID, LID))],
          defines=['result == (D_cmd({0}, old(G.di)[{0}]), D_a0({0}, old(G.di)[{0}]), D_a1({0}, old(G.di)[{0}]), D_data({0}, old(G.di)[{0}]))'.format(LID)],
          ensures=[('C01,C06,C10', 'command-is-expected', 'result[0] in expected_cmds'),
+                  ('C01,C06', 'one-packet-delivered', 'G.di == store(old(G.di), {0}, old(G.di)[{0}] + 1)'.format(LID)),
                   ('C01,C06', 'packet-belongs-to-this-stream', MATCH('result[1]', 'result[2]')),
                   ('C06,C12', 'locks-released', UNLOCKED),
                   ('C11', 'duration', DUR3),
@@ -224,6 +225,7 @@ contract('IOManager._read_expected_packet_from_device',
          ghost_exit=[('G.di', 'store(G.di, %s, G.di[%s] + 1)' % (HS, HS))],
          defines=['result == (D_cmd({0}, old(G.di)[{0}]), D_a0({0}, old(G.di)[{0}]), D_a1({0}, old(G.di)[{0}]), D_data({0}, old(G.di)[{0}]))'.format(HS)],
          ensures=[('C05', 'command-is-expected', 'result[0] in expected_cmds'),
+                  ('C05', 'one-reply-consumed', 'G.di == store(old(G.di), {0}, old(G.di)[{0}] + 1)'.format(HS)),
                   ('C11', 'duration', DUR_E), MONO,
                   'result[1] >= 0 and result[1] < 2**32 and result[2] >= 0 and result[2] < 2**32'],
          raises={'AdbTimeoutError': [('C11', 'duration', DUR_E), MONO,
@@ -233,5 +235,6 @@ contract('IOManager._read_expected_packet_from_device',
                  '*': [('C11', 'duration', DUR_E), MONO]},
          loops={0: dict(invariant=[('C05,C11', 'G.rpos >= old(G.rpos) and G.rpos <= len(G.dev) and G.rpos >= 0 and G.held_transport'),
                                    ('C11', 'G.now - start <= %s and G.now >= start and start >= old(G.now)' % R),
-                                   ('C11', 'start - old(G.now) <= G.cpu - old(G.cpu) and G.cpu >= old(G.cpu)')])},
+                                   ('C11', 'start - old(G.now) <= G.cpu - old(G.cpu) and G.cpu >= old(G.cpu)'),
+                                   ('C05,C11', 'G.di == old(G.di)')])},
          doc='the next device packet whose command is expected; strays before it are skipped; bounded by the read deadline')
